@@ -27,7 +27,7 @@ const KeyPass = "hunter2 verif"
 
 // SignTime is the creation time the simulated signer stamps on OpenPGP
 // signatures, so that callback-signed packages are a function of the input.
-var SignTime = time.Date(2031, 3, 4, 5, 6, 7, 0, time.UTC)
+var SignTime = FakeEpoch.Add(SimNow)
 
 // SimSigner is the simulated remote signer (seam S2): it records the bytes
 // it is handed, answers per plan, and is a scheduler yield point.
